@@ -10,11 +10,14 @@ _installed = [False]
 
 
 def _cb(code, line):
-    if code.co_filename not in _targets:
-        return sys.monitoring.DISABLE
+    try:
+        if code.co_filename not in _targets:
+            return sys.monitoring.DISABLE
+    except TypeError:  # interpreter shutdown
+        return None
     if _on[0]:
         me = ds.cur()
-        if me is not None and not me.sim.aborting:
+        if me is not None and not me.sim.aborting and not me.sim.in_sched:
             me.sim.yield_point(f'line {line}')
 
 
